@@ -541,7 +541,7 @@ def main(tier, replay=None):
     t0 = time.time()
     traces = [t for o in outs for t in o[0]]
     meta = [m for o in outs for m in o[1]]
-    verdicts, s2 = trace.judge('Trace_Lazy', traces, 'C18_obs')
+    verdicts, s2 = trace.judge('Trace_Lazy', traces, 'C18_obs', batch=4000)      # record streams carry thousands of yields
     states += s2
     phases['judge'] = round(time.time() - t0, 1)
     worst = {'py': 0, 'c': 0}
